@@ -41,6 +41,7 @@ type c15Out struct {
 	HitOp   string   `json:"hit_op"`
 	Err     string   `json:"err"`
 	Verdict string   `json:"verdict"` // "" ok, else kind|message
+	Absorbed bool    `json:"absorbed,omitempty"` // a transient failure was retried with the same arguments and the end state is right
 	Skipped string   `json:"skipped,omitempty"` // the environment cannot host this operation (reported, not judged)
 }
 
@@ -368,6 +369,8 @@ func c15Op(c *WCase, res *WResult) {
 			switch {
 			case err == nil && (!bytes.Equal(got, value) || gotAttrs != 7):
 				bad("wrong-value", "read returned a wrong value (%d bytes, attrs %#x) with nil error after %s failed (%s)", len(got), gotAttrs, ffs.HitOp, mode)
+			case err == nil && !benign && mode == "error" && !persistent && retriedSame(ffs.Events()):
+				out.Absorbed = true // the failed call was repeated and the value returned is the stored one
 			case err == nil && !benign:
 				bad("success-reported", "read reported success although %s failed (%s)", ffs.HitOp, mode)
 			case err != nil && op == "read.object" && spy.called && !bytes.Equal(spy.got, value):
@@ -379,7 +382,15 @@ func c15Op(c *WCase, res *WResult) {
 		out.Kinds = fsKinds(ffs.Events())
 		out.Err = errS(err)
 		if ffs.Hit && err == nil {
-			bad("success-reported|"+ffs.HitOp+"|"+mode, "%s reported success although %s failed (%s)", op, ffs.HitOp, mode)
+			// A transient failure may be absorbed by repeating the very same call (a retry loop):
+			// accepted only when the failed call returned an error with nothing done, the same call
+			// with the same arguments was issued again and succeeded, and the file ends up holding
+			// exactly what the last successful write handed over.
+			if mode == "error" && !persistent && retriedSame(ffs.Events()) && fileHoldsLastWrite(ffs, path) {
+				out.Absorbed = true
+			} else {
+				bad("success-reported|"+ffs.HitOp+"|"+mode, "%s reported success although %s failed (%s)", op, ffs.HitOp, mode)
+			}
 		}
 		if !ffs.Hit && err != nil {
 			bad("harness", "fault-free write failed: %v", err)
@@ -533,7 +544,11 @@ func checkC15(r *mon.Run) {
 			r.Violation("C15|"+opClass(p.op)+"|"+key, fmt.Sprintf("%s, call %d of %d failing (%s, %s): %s", p.op, p.k, seqs[p.op].N, p.mode, tr, msg), replay)
 			continue
 		}
-		r.Count("faults_surfaced_as_error", 1)
+		if o.Absorbed {
+			r.Count("transient_faults_absorbed_by_an_identical_retry", 1)
+		} else {
+			r.Count("faults_surfaced_as_error", 1)
+		}
 		if i%97 == 0 || i < 2 {
 			r.SampleIfFew(6, map[string]any{"op": p.op, "k": p.k, "of": seqs[p.op].N, "mode": p.mode, "persistence": tr, "failed_call": o.HitOp, "returned_error": trunc(o.Err, 90)})
 		}
@@ -568,4 +583,64 @@ func setImmutableFlag(path string, on bool) error { // 0x10 = FS_IMMUTABLE_FL
 		fl &^= 0x10
 	}
 	return unix.IoctlSetPointerInt(int(f.Fd()), unix.FS_IOC_SETFLAGS, fl)
+}
+
+// retriedSame reports whether the faulted call of a trace was issued again later with the same
+// arguments and succeeded. For a failed Close the whole open/write/close must have been repeated.
+func retriedSame(evs []fault.Event) bool {
+	fi := -1
+	for i, e := range evs {
+		if e.Fault != "" {
+			fi = i
+			break
+		}
+	}
+	if fi < 0 {
+		return false
+	}
+	f := evs[fi]
+	same := func(e fault.Event) bool {
+		return e.Op == f.Op && e.Name == f.Name && e.Flag == f.Flag && bytes.Equal(e.Data, f.Data) && e.Len == f.Len && e.Err == "" && e.Fault == ""
+	}
+	if f.Op == "Close" {
+		// the data written before the failed close must have been written again, and closed
+		var data []byte
+		for _, e := range evs[:fi] {
+			if e.Op == "Write" && e.Handle == f.Handle {
+				data = e.Data
+			}
+		}
+		wrote := false
+		for _, e := range evs[fi+1:] {
+			if e.Op == "Write" && e.Err == "" && e.Fault == "" && bytes.Equal(e.Data, data) && e.N == len(data) {
+				wrote = true
+			}
+			if wrote && e.Op == "Close" && e.Err == "" && e.Fault == "" {
+				return true
+			}
+		}
+		return data == nil && false
+	}
+	for _, e := range evs[fi+1:] {
+		if same(e) {
+			return true
+		}
+	}
+	return false
+}
+
+// fileHoldsLastWrite: the file's content is the buffer of the last successful write.
+func fileHoldsLastWrite(ffs *fault.Fs, path string) bool {
+	var last []byte
+	found := false
+	for _, e := range ffs.Events() {
+		if e.Op == "Write" && e.Err == "" && e.Fault == "" && e.N == len(e.Data) {
+			last, found, path = e.Data, true, e.Name
+		}
+	}
+	if !found {
+		return false
+	}
+	got, err := afero.ReadFile(ffs.Inner, path)
+	return err == nil && bytes.Equal(got, last)
 }
